@@ -674,6 +674,15 @@ class TypeGen:
         n = draw(st.integers(2, 4))
         cases = []
         seen_strict: set = set()
+        if self.literals and self.rich and draw(st.integers(0, 7)) == 0:
+            # a Literal next to a class whose instances can be *equal* to a literal value (Decimal(1) == 1)
+            lit = draw(st_literal_spec(counter, self.lookalike_literals))
+            other = [draw(st.sampled_from(["decimal", "fraction", "complex"] + ([] if hashable else ["bytearray"])))]
+            sh = shapes(lit, True) | shapes(other, True)
+            if not (self.disjoint_unions and shapes(lit, True) & shapes(other, True)):
+                cases, seen_strict = [lit, other], set(sh)
+                if draw(st.booleans()):
+                    cases.reverse()
         for _ in range(n * 2):
             if len(cases) >= n:
                 break
@@ -910,7 +919,22 @@ def st_value(spec, models=None, budget=2, min_size=0):  # noqa: C901, PLR0911, P
             return st.none()
         return st.one_of(st.none(), sv(spec[1]), sv(spec[1]))
     if tag == "union":
-        return st.one_of(*[sv(c) for c in spec[1]])
+        alts = [sv(c) for c in spec[1]]
+        # values of one case that are *equal* to a Literal member of another case (Decimal(1) == 1, bytearray(b'a') == b'a')
+        lits = [v for c in spec[1] if strip(c)[0] == "literal" for v in strip(c)[1]]
+        nums = [int(v) for v in lits if isinstance(v, (bool, int)) and abs(v) < 10 ** 6]
+        hexes = [v["h"] for v in lits if isinstance(v, dict) and v.get("$") == "bytes"]
+        for c in spec[1]:
+            k = strip(c)[0]
+            if nums and k == "decimal":
+                alts.append(st.sampled_from(nums).map(lambda n: {"$": "dec", "s": str(n)}))
+            elif nums and k == "fraction":
+                alts.append(st.sampled_from(nums).map(lambda n: {"$": "frac", "s": str(n)}))
+            elif nums and k == "complex":
+                alts.append(st.sampled_from(nums).map(lambda n: {"$": "cx", "r": repr(float(n)), "i": "0.0"}))
+            elif hexes and k == "bytearray":
+                alts.append(st.sampled_from(hexes).map(lambda h: {"$": "bytearray", "h": h}))
+        return st.one_of(*alts)
     if tag == "model":
         m2 = dict(models or {})
         m2[spec[1]["name"]] = spec
